@@ -765,6 +765,24 @@ func (fc *FuncCtx) RejectFormula() *bddNode {
 	return fc.ResultFormula(i, fc.NonNil)
 }
 
+// NotAcceptFormula: the condition under which the function does not return a nil error (it returns an
+// error, or leaves by an explicit panic). For functions without panic exits this equals RejectFormula.
+func (fc *FuncCtx) NotAcceptFormula() *bddNode {
+	i := errIndex(fc.Fn)
+	if i < 0 {
+		return fc.A.B.False
+	}
+	B := fc.A.B
+	succ := B.False
+	for _, r := range fc.Returns() {
+		if i >= len(r.Results) {
+			continue
+		}
+		succ = B.Or(succ, B.And(fc.Cond(r.Block()), B.Not(fc.NonNil(r.Results[i]))))
+	}
+	return B.Not(succ)
+}
+
 // Implied: does reaching block b imply formula f?
 func (fc *FuncCtx) Implied(b *ssa.BasicBlock, f *bddNode) bool {
 	return fc.A.B.Implies(fc.Cond(b), f)
